@@ -232,7 +232,8 @@ def execute (c : Config) (rpus : List (Option Rpu)) : Res (List (Option Rpu)) :=
   match c.source with
   | none => .ok rpus
   | some src =>
-    if rpus.length != src.length then .error
+    -- `ensure!(rpus.iter().flatten().count() == source_rpus.len())`: the frames that remain after `remove`
+    if rpus.countP Option.isSome != src.length then .error
     else match c.levels with
       | none => .error
       | some lv => replaceFromSource lv rpus src
